@@ -9,3 +9,4 @@ pub mod scen_render;
 pub mod scen_file;
 #[cfg(feature = "hooks")]
 pub mod scen_wasm;
+pub mod scen_hist;
